@@ -133,7 +133,7 @@ def tla_set(xs):
 TRACE_INVS = ["C01_AtMostOnce", "C01_RealTimeFIFO", "C01_NoOverlap", "C01_Fold", "C02_OwnResult", "C02_Resolves",
               "C03_Order", "C03_HandlersInside", "C03_Graceful", "C03_StartErr",
               "C04_Drain", "C04_NoLate", "C04_StopTerminates", "C04_AnnounceAfter",
-              "C05_KeepAlive", "C05_DrainOnDrop", "C05_UpgradeDead", "C06", "C07", "C08", "C09_ExactlyOnce", "C09_Delivered", "C09_CommonOrder", "C09_PublisherOrder", "C09_BrokerNeverFails", "C10", "C11", "C12", "C13", "C14", "C15", "C16", "C17"]
+              "C05_KeepAlive", "C05_DrainOnDrop", "C05_UpgradeDead", "C06", "C07", "C08", "C09_ExactlyOnce", "C09_Delivered", "C09_CommonOrder", "C09_PublisherOrder", "C09_BrokerNeverFails", "C10", "C11", "C12", "C13", "C13_FairSelect", "C14", "C15", "C16", "C17"]
 
 
 def validate_shard(traces, dev, workdir, tag, timeout=600, profile="debug"):
